@@ -46,6 +46,9 @@ def plan(tier, seed):
             if tier == "quick" and k % 2 and name in ("paren", "lit"):
                 continue
             specs.append({"klass": name, "i": k, "exprs": chunk, "form": "direct" if k % 3 else "inter"})
+    for k, chunk in enumerate(classes.chunks(classes.conditional_table(), PACK)):
+        # the same conditionals over identifiers that contain tokens of the generated C (true, false, pow, fabs)
+        specs.append({"klass": "cond_names", "i": k, "exprs": chunk, "form": "direct" if k % 2 else "inter", "rename": classes.RENAME_TOKENS})
     shapes = [("chain", 40), ("diamond", 10), ("unused", 12), ("random", 20)]
     for k, (sh, n) in enumerate(shapes):
         specs.append({"klass": "shape", "i": k, "shape": sh, "n_inter": n})
@@ -352,12 +355,12 @@ def run_case(spec, ctx):
         vs = []
         okc = 0
         for e in spec["exprs"]:
-            sub = check_model(classes.packed_model([e]), C.rng_for(spec, e), want=4, tier=tier)
+            sub = check_model(c01.single_text(spec, e), C.rng_for(spec, e), want=4, tier=tier)
             okc += sub["counters"].get("compared", 0)
             out["evaluations"] += sub.get("evaluations", 0)
             for v in sub["violations"]:
                 v["detail"]["expression"] = e
-                v["text"] = classes.packed_model([e])
+                v["text"] = c01.single_text(spec, e)
                 vs.append(v)
         out["violations"] = vs
         out["counters"]["compared"] = okc
